@@ -137,6 +137,11 @@ def reload_side(ctx):
     ctx.coverage["sync_loop_term_injection_points"] = len(t2)
     verdicts, stats = tlc.validate_batch("ReloadTrace", "ReloadTrace.cfg", traces, name="ReloadTrace_C10")
     ctx.add_traces(len(traces), stats)
+
+    def rerun(k):
+        a = plan[k]
+        return run_reload(a[0], a[1], a[2], ctx.seed * 10 + k, bind=a[3], drop_env_last=len(a) > 4 and a[4], relcfg=len(a) > 5 and a[5])
+    tlc.repeat_failing(ctx, "ReloadTrace", "ReloadTrace.cfg", traces, metas, verdicts, range(len(plan)), rerun, "ReloadTrace_C10")
     ctx.coverage["real_process_reloads"] = len(traces)
     ctx.coverage["requests_during_reload"] = sum(m["requests"] for m in metas)
     for t, m, (v, step) in zip(traces, metas, verdicts):
@@ -429,6 +434,8 @@ def timeout_side(ctx):
     metas = [r[1] for r in results]
     verdicts, stats = tlc.validate_batch("TimeoutTrace", "TimeoutTrace.cfg", traces, name="TimeoutTrace_C11")
     ctx.add_traces(len(traces), stats)
+    tlc.repeat_failing(ctx, "TimeoutTrace", "TimeoutTrace.cfg", traces, metas, verdicts, range(len(plan)),
+                       lambda k: run_timeout(plan[k][0], plan[k][1]), "TimeoutTrace_C11")
     ctx.coverage["real_process_timeout_runs"] = len(traces)
     for t, m, (v, step) in zip(traces, metas, verdicts):
         if v == "ok":
